@@ -132,7 +132,7 @@ def gen_case(rng):
             return {"type": "expr", "tree": t, "lib": X.to_lib(t, rng, style), "py": X.to_python(t)}
         n = rng.choice(names)
         lay = layout[n]
-        if r < 0.9 or lay["providers"] != ["sm"] or lay["kind"] in ("attr", "amethod"):
+        if r < 0.84 or lay["providers"] != ["sm"] or lay["kind"] in ("attr", "amethod"):
             return {"type": "expr", "tree": X.T("name", val=n), "lib": n, "py": n}
         if lay["kind"] == "prop":
             return {"type": "propobj", "name": n, "py": n}
@@ -160,6 +160,7 @@ def gen_case(rng):
                     keep.append(e)
             conds, unlesses = keep_c, keep_u
     two_src = rng.random() < 0.25
+    via_any = (not two_src) and rng.random() < 0.2
     deco = None
     if two_src and rng.random() < 0.7:
         # a guard attached with the decorator syntax (@go.cond / @go.unless) to an event made of two
@@ -192,7 +193,10 @@ def gen_case(rng):
         valuations.append(v)
     return {
         "names": names, "layout": layout, "conds": conds, "unlesses": unlesses,
-        "valuations": valuations, "style": style, "via_any": (not two_src) and rng.random() < 0.2, "two_src": two_src,
+        "valuations": valuations, "style": style, "via_any": via_any, "two_src": two_src,
+        # (not together with from_.any(): defining a subclass re-expands any() on the State objects it
+        # shares with the base class - the W8 family recorded under C16)
+        "subclass_inst": (not via_any) and rng.random() < 0.2,
     }
 
 
@@ -408,6 +412,12 @@ def run_case(case, counters, violations, sigs, samples, src_only=False):
         try:
             exec(compile(src, f"<c08-{k}>", "exec"), ns)
             M, Mod, Lis = ns[f"M_{k}"], ns[f"Mod_{k}"], ns[f"Lis_{k}"]
+            if case.get("subclass_inst"):
+                # the machine (and the model) actually used are subclasses that override nothing: names,
+                # property objects and functions of the guards are found through inheritance
+                M = type(f"Sub_{k}", (M,), {})
+                Mod = type(f"SubMod_{k}", (Mod,), {})
+                counters["inherited_guard_cases"] = counters.get("inherited_guard_cases", 0) + 1
             # initial values so that registration-time getattr() on properties works
             for n in case["names"]:
                 for p in case["layout"][n]["providers"]:
